@@ -144,6 +144,11 @@ impl Flounder {
             }
         }
 
+        #[cfg(flounder_verif)]
+        if verif::capture_go(depth, time_limit) {
+            return;
+        }
+
         let (_, best_move) = self.searcher.find_best_move(&self.board, depth, time_limit);
 
         if let Some(mv) = best_move {
@@ -216,6 +221,62 @@ impl Flounder {
             let mv = moves.iter().find(|m| m.to_algebraic() == *mv_str);
             self.board.make_move(mv.unwrap());
         }
+    }
+}
+
+/// Verification hooks (compiled only with `--cfg flounder_verif`; add-only, no behaviour change).
+#[cfg(flounder_verif)]
+pub mod verif {
+    use std::cell::RefCell;
+    use std::time::Duration;
+
+    thread_local! {
+        /// Some(None): capture armed; Some(Some(x)): parameters the go handler parsed
+        static GO_CAPTURE: RefCell<Option<Option<(u8, Option<Duration>)>>> = RefCell::new(None);
+    }
+
+    pub fn arm() {
+        GO_CAPTURE.with(|c| *c.borrow_mut() = Some(None));
+    }
+
+    pub fn take() -> Option<(u8, Option<Duration>)> {
+        GO_CAPTURE.with(|c| c.borrow_mut().take().flatten())
+    }
+
+    /// Called by handle_go_command right before the search: records what the real parser produced
+    /// and tells the handler to return without searching when a capture is armed.
+    pub fn capture_go(depth: u8, time_limit: Option<Duration>) -> bool {
+        GO_CAPTURE.with(|c| {
+            let mut c = c.borrow_mut();
+            if c.is_some() {
+                *c = Some(Some((depth, time_limit)));
+                true
+            } else {
+                false
+            }
+        })
+    }
+}
+
+#[cfg(flounder_verif)]
+impl Flounder {
+    pub fn verif_handle_command(&mut self, command: &str) {
+        self.handle_command(command);
+    }
+
+    pub fn verif_board(&self) -> &Board {
+        &self.board
+    }
+
+    pub fn verif_searcher(&mut self) -> &mut Searcher {
+        &mut self.searcher
+    }
+
+    /// The (depth, time budget) the real go parser hands to the search, without searching.
+    pub fn verif_go_budget(&mut self, command: &str) -> Option<(u8, Option<Duration>)> {
+        verif::arm();
+        self.handle_command(command);
+        verif::take()
     }
 }
 
